@@ -8,6 +8,8 @@ mod lexer;
 #[cfg(test)]
 mod tests;
 mod validator;
+#[cfg(feature = "verif-hooks")]
+pub mod verif;
 
 use std::{
     borrow::Cow,
